@@ -249,14 +249,45 @@ def c02_3(ctx):
                         scan(ast.parse(o, mode="eval").body, what + " (condition `%s`)" % o[:50])
                     except SyntaxError:
                         pass
+        # a loop that re-binds the scalar's own name (e >>= 1) carries a value DERIVED from what entered the loop: when every
+        # entry state holds the reduced scalar, the tests the loop (and what follows it) makes of that name look at the reduced
+        # scalar's bits, not at the parameter
+        carried_from = None
+        for lp in ast.walk(node):
+            if isinstance(lp, (ast.For, ast.While)) and id(lp) in w.loop_in and any(isinstance(x, ast.Name) and x.id == ename and isinstance(x.ctx, ast.Store) for x in ast.walk(lp)):
+                before = len(raw_uses)
+                for st_ in w.loop_in[id(lp)]:
+                    v_ = st_.env.get(ename)
+                    if isinstance(v_, ast.AST):
+                        scan(v_, "the ladder starts with %s = %s" % (ename, norm(v_)[:50]), st_.reach)
+                    else:
+                        raw_uses.append("the ladder starts with an unknown %s" % ename)
+                if len(raw_uses) == before and w.loop_in[id(lp)]:
+                    pos = (lp.lineno, lp.col_offset)
+                    carried_from = pos if carried_from is None else min(carried_from, pos)
+                    entry_atoms = set()
+                    for st_ in w.loop_in[id(lp)]:
+                        entry_atoms |= set(gi.f_opaques(st_.reach)) if st_.reach not in (True, False) else set()
+
+        def derived(n_):
+            return carried_from is not None and n_ is not None and hasattr(n_, "lineno") and (n_.lineno, n_.col_offset) >= carried_from
+
+        def scan_formula_at(f_, what, n_):
+            if not derived(n_):
+                return scan_formula(f_, what)
+            for o in (gi.f_opaques(f_) if f_ not in (True, False) else []):
+                if o in entry_atoms:
+                    scan_formula(("op", o), what)
         for e in w.exits:
-            scan(e.value, "%s %s" % (e.kind, norm(e.value)[:50] if e.value is not None else ""), e.cond)
-            scan_formula(e.cond, "%s" % e.kind)
+            if not derived(e.node):
+                scan(e.value, "%s %s" % (e.kind, norm(e.value)[:50] if e.value is not None else ""), e.cond)
+            scan_formula_at(e.cond, "%s" % e.kind, e.node)
         for e in w.effects:
-            for part in e.parts():
-                if isinstance(part, ast.AST):
-                    scan(part, "%s %s" % (e.kind, norm(part)[:50]), e.reach)
-            scan_formula(e.reach, e.kind)
+            if not derived(getattr(e, "node", None)):
+                for part in e.parts():
+                    if isinstance(part, ast.AST):
+                        scan(part, "%s %s" % (e.kind, norm(part)[:50]), e.reach)
+            scan_formula_at(e.reach, e.kind, getattr(e, "node", None))
         for lst in w.loop_in.values():
             for st_ in lst:
                 for k_, v_ in st_.env.items():
@@ -489,6 +520,9 @@ def c02_8(ctx):
     elif df.const_int(cnt) is not None:
         ctx.bad("table-covers-order", ctx.where(f, fill[0]), "Generator.__init__ tabulates a fixed %s powers of G whatever the group order: on a curve whose order is longer, raw_mul ignores the high bits of the scalar and "
                 "the fixed-base product differs from the plain ladder" % t, sample={"entries": t})
+    elif not any(b_.split(".bit_length")[0] in t for b_ in bl):
+        ctx.bad("table-covers-order", ctx.where(f, fill[0]), "Generator.__init__ tabulates `%s` powers of G, a count that does not depend on the group order: the order of a curve is not bounded by it "
+                "(a curve over GF(p) may have more points than p, and the order may be longer than any fixed or field-derived length), so raw_mul ignores the high bits of a reduced scalar there" % t[:60], sample={"entries": t})
     else:
         ctx.undecided("table-covers-order", ctx.where(f, fill[0]), "the table has `%s` entries; this rule reads order.bit_length() (or a maximum with it) only" % t[:60])
     g = ctx.func(GEN, "Generator.raw_mul")
